@@ -47,6 +47,7 @@ func isFuncType(t types.Type) bool {
 }
 
 type escapeAnalysis struct {
+	skipPanics  bool // handler analysis: explicit re-panics of payloads the handler does not understand are by design
 	c           *Ctx
 	may         map[*ssa.Function]string // function -> reason it may let a panic escape ("" = not yet)
 	boundary    map[*ssa.Function]bool
@@ -80,7 +81,55 @@ func benignDynamic(call ssa.CallInstruction) bool {
 	return false
 }
 
+// recoversExceptions: fn defers a function literal that calls recover(), checks the recovered value with a comma-ok
+// assertion to *exception and re-panics everything else: script exceptions raised in fn's body stop there.
+func recoversExceptions(fn *ssa.Function) *ssa.Function {
+	for _, b := range fn.Blocks {
+		for _, ins := range b.Instrs {
+			d, ok := ins.(*ssa.Defer)
+			if !ok {
+				continue
+			}
+			lit := closureOf(&d.Call)
+			if lit == nil {
+				continue
+			}
+			var rec ssa.Value
+			asserts := false
+			for _, lb := range lit.Blocks {
+				for _, li := range lb.Instrs {
+					switch x := li.(type) {
+					case *ssa.Call:
+						if bi, ok := x.Call.Value.(*ssa.Builtin); ok && bi.Name() == "recover" {
+							rec = x
+						}
+					case *ssa.TypeAssert:
+						if x.CommaOk && rec != nil && x.X == rec {
+							if n := derefNamed(x.AssertedType); n != nil && n.Obj().Name() == "exception" {
+								asserts = true
+							}
+						}
+					}
+				}
+			}
+			if rec != nil && asserts {
+				return lit
+			}
+		}
+	}
+	return nil
+}
+
 func (ea *escapeAnalysis) ownReason(fn *ssa.Function) string {
+	if recoversExceptions(fn) != nil {
+		return "" // its body runs under its own deferred recover of script exceptions
+	}
+	// the recover literal itself re-panics only what is not a script exception: its explicit panics are by design,
+	// its calls are examined like any others
+	rePanicsOnly := false
+	if p := fn.Parent(); p != nil && recoversExceptions(p) == fn {
+		rePanicsOnly = true
+	}
 	// closures passed directly to a boundary function are protected
 	protected := map[*ssa.Function]bool{}
 	for _, b := range fn.Blocks {
@@ -105,7 +154,7 @@ func (ea *escapeAnalysis) ownReason(fn *ssa.Function) string {
 		for _, ins := range b.Instrs {
 			switch x := ins.(type) {
 			case *ssa.Panic:
-				if ea.deadPanic[x] {
+				if ea.deadPanic[x] || ea.skipPanics || rePanicsOnly {
 					continue
 				}
 				if ea.ignoreStack && underScopeNonNil(x) {
@@ -362,6 +411,51 @@ func ruleAPIBoundary(c *Ctx, r *R) {
 			continue
 		}
 		r.bad(key, site, fmt.Sprintf("public API %s can let a panic escape to the embedding program: it %s", ssaFuncName(fn), why))
+	}
+	// the recovering handlers themselves: after recover() nothing protects the code that turns the caught value into an
+	// error, so a call there that can throw (a string conversion that runs script code) lets the second panic out
+	calledByRoot := map[*ssa.Function]bool{}
+	for _, root := range roots {
+		for _, g := range withAnon(root) {
+			for _, b := range g.Blocks {
+				for _, ins := range b.Instrs {
+					if ci, ok := ins.(ssa.CallInstruction); ok {
+						if callee := ci.Common().StaticCallee(); callee != nil {
+							calledByRoot[callee] = true
+						}
+					}
+				}
+			}
+		}
+	}
+	for _, fn := range funcs {
+		if !ea.boundary[fn] || !calledByRoot[fn] {
+			continue // only the boundary the public API relies on: a script-level try/catch that throws again is caught further out
+		}
+		for _, an := range fn.AnonFuncs {
+			recovers := false
+			for _, b := range an.Blocks {
+				for _, ins := range b.Instrs {
+					if call, ok := ins.(*ssa.Call); ok {
+						if bi, ok := call.Call.Value.(*ssa.Builtin); ok && bi.Name() == "recover" {
+							recovers = true
+						}
+					}
+				}
+			}
+			if !recovers {
+				continue
+			}
+			ea.skipPanics = true
+			why := ea.ownReason(an)
+			ea.skipPanics = false
+			key := "handler:" + ssaFuncName(fn)
+			if why == "" {
+				r.ok(key, c.Pos(an.Pos()), "the recover handler makes no call that can throw")
+			} else {
+				r.bad(key, c.Pos(an.Pos()), fmt.Sprintf("the recover handler of %s %s: a panic raised while the caught value is being turned into an error is not recovered by anything and escapes every public entry point that relies on this boundary (an uncaught exception whose toString throws: `throw {toString: function(){ throw 1 }}`)", ssaFuncName(fn), why))
+			}
+		}
 	}
 	r.note("boundary_functions", len(ea.boundary))
 	r.note("may_escape_functions", len(ea.may))
